@@ -8,7 +8,7 @@ from .. import AnalysisError
 from ..absint import Evaluator, Unsupported
 from ..flow import show, walk_term
 from ..report import ob_ok, ob_fail, ob_undecided, VERIF
-from .common import is_call, method_call, elem_of, strip_wrappers, guards_of, enclosing_loops, need
+from .common import is_call, method_call, elem_of, strip_wrappers, guards_of, enclosing_loops, need, strip_not, if_arms, aug_like, resolve_ast
 from . import tables
 
 with open(os.path.join(VERIF, "spec", "fragment_tokens.json")) as fh:
@@ -52,9 +52,9 @@ class Tokenizer:
         self.COUNTER = self.PREV = None
         for st in body:
             for sub in ast.walk(st):
-                if isinstance(sub, ast.AugAssign) and isinstance(sub.target, ast.Name) and isinstance(sub.op, ast.Add) and \
-                        isinstance(sub.value, ast.Constant) and sub.value.value == 1:
-                    self.COUNTER = sub.target.id
+                al = aug_like(sub) if isinstance(sub, (ast.AugAssign, ast.Assign)) else None
+                if al and al[1] is ast.Add and isinstance(al[2], ast.Constant) and al[2].value == 1:
+                    self.COUNTER = al[0]
         need(self.COUNTER, "cannot identify the atom counter (no `x += 1` in the bare-atom branch)", fi)
         for st in body:
             for sub in ast.walk(st):
@@ -247,8 +247,8 @@ def tok_rules(repo, tier="quick"):
     for name, body, node in atom_branches:
         prevs = T.assigns(body, T.PREV, lambda v: isinstance(v, ast.Name) and v.id == T.COUNTER)
         incs = {cfg.node_of_stmt[id(s)] for st in body for s in ast.walk(st)
-                if isinstance(s, ast.AugAssign) and isinstance(s.target, ast.Name) and s.target.id == T.COUNTER and isinstance(s.op, ast.Add)
-                and isinstance(s.value, ast.Constant) and s.value.value == 1}
+                if isinstance(s, (ast.AugAssign, ast.Assign)) and aug_like(s) and aug_like(s)[0] == T.COUNTER and aug_like(s)[1] is ast.Add
+                and isinstance(aug_like(s)[2], ast.Constant) and aug_like(s)[2].value == 1}
         ok = len(prevs) == 1 and len(incs) == 1 and T.all_paths_pass(body, prevs) and T.all_paths_pass(body, incs)
         if ok:
             p, i = list(prevs)[0], list(incs)[0]
@@ -331,7 +331,7 @@ def tok_rules(repo, tier="quick"):
         key = s0.func.value.slice if isinstance(s0, ast.Call) else s0.targets[0].slice
         nid = cfg.owner[id(s0)]
         incs = [cfg.node_of_stmt[id(s)] for st in aarm for s in ast.walk(st)
-                if isinstance(s, ast.AugAssign) and isinstance(s.target, ast.Name) and s.target.id == T.COUNTER]
+                if isinstance(s, (ast.AugAssign, ast.Assign)) and aug_like(s) and aug_like(s)[0] == T.COUNTER]
         ok = isinstance(key, ast.Name) and key.id == T.COUNTER and all(cfg.path_exists(nid, i) and not cfg.path_exists(i, nid, avoid={cfg.node_of_stmt[id(T.loop)]}) for i in incs)
     (obs.append(ob_ok("TOK.T3-atom", fi, dnode, construct="attributes[counter].update(parsed annotations) before counter += 1", instance="bracket:annotations",
                       reason="annotations are reported on the atom they are written in")) if ok else
@@ -352,8 +352,12 @@ def tok_rules(repo, tier="quick"):
                      and s.func.attr == "append" and isinstance(s.func.value, ast.Name)]
             T.STACK = stack[0] if stack else None
         else:
-            ok = bool(T.assigns(body, T.PREV, lambda v: isinstance(v, ast.Call) and isinstance(v.func, ast.Attribute) and v.func.attr == "pop"
-                                and isinstance(v.func.value, ast.Name) and v.func.value.id == getattr(T, "STACK", None) and not v.args))
+            def is_pop(v):
+                if isinstance(v, ast.Name) and id(v) in cfg.owner:
+                    v = resolve_ast(fl, v, cfg.owner[id(v)])[0]
+                return isinstance(v, ast.Call) and isinstance(v.func, ast.Attribute) and v.func.attr == "pop" and \
+                    isinstance(v.func.value, ast.Name) and v.func.value.id == getattr(T, "STACK", None) and not v.args
+            ok = bool(T.assigns(body, T.PREV, is_pop))
         apps = T.text_appends(body)
         ok_app = len(apps) == 1 and isinstance(apps[0][1], ast.Name) and apps[0][1].id == T.token
         (obs.append(ob_ok("TOK.T4-branch", fi, node, construct="'%s': %s previous atom; text += token" % (ch, kind), instance=kind,
@@ -395,8 +399,8 @@ def _descriptor_split(T, bracket_branch):
     kinds = set(SPEC["descriptor_kinds"])
     for st in body:
         if isinstance(st, ast.If):
-            cmp_ = st.test
-            if isinstance(cmp_, ast.Compare) and len(cmp_.ops) == 1 and isinstance(cmp_.ops[0], ast.In):
+            cmp_, tarm, farm = if_arms(st)
+            if isinstance(cmp_, ast.Compare) and len(cmp_.ops) == 1 and isinstance(cmp_.ops[0], (ast.In, ast.NotIn)):
                 try:
                     lit = ast.literal_eval(cmp_.comparators[0])
                 except Exception:
@@ -404,7 +408,9 @@ def _descriptor_split(T, bracket_branch):
                 if len(set(lit) & kinds) >= 2:
                     T.kinds_literal = set(lit) if not isinstance(lit, str) else set(lit.replace(" ", ""))
                     T.peek_var = ast.unparse(cmp_.left)
-                    return st.body, st.orelse, st
+                    if isinstance(cmp_.ops[0], ast.NotIn):
+                        tarm, farm = farm, tarm
+                    return tarm, farm, st
     raise AnalysisError("cannot find the descriptor / bracket-atom split in the '[' branch", T.fi.where(node))
 
 
@@ -453,18 +459,24 @@ def _descriptor_rules(T, bb, darm, dnode):
     init_ok = any(d.kind == "assign" and isinstance(d.value, ast.Name) and d.value.id == T.peek_var for d in tdefs)
     acc_ok = False
     for d in tdefs:
-        if d.kind == "aug" and isinstance(d.value.op, ast.Add) and isinstance(d.value.value, ast.Name):
-            ch = d.value.value.id
+        al = aug_like(d.ast) if d.ast is not None and isinstance(d.ast, (ast.AugAssign, ast.Assign)) else None
+        if al and al[0] == text_name and al[1] is ast.Add and isinstance(al[2], ast.Name):
+            ch = al[2].id
             loops = enclosing_loops(fi, d.node)
             if loops and loops[0].kind == "while":
                 tst = loops[0].ast.test
+                def is_next(v):
+                    if isinstance(v, ast.Name) and id(v) in cfg.owner:
+                        v = resolve_ast(fl, v, cfg.owner[id(v)])[0]
+                    return isinstance(v, ast.Call) and isinstance(v.func, ast.Name) and v.func.id == "next"
                 adv = [s2 for st2 in loops[0].ast.body for s2 in ast.walk(st2) if isinstance(s2, ast.Assign) and isinstance(s2.targets[0], ast.Name)
-                       and s2.targets[0].id == ch and isinstance(s2.value, ast.Call) and isinstance(s2.value.func, ast.Name) and s2.value.func.id == "next"]
+                       and s2.targets[0].id == ch and is_next(s2.value)]
                 if isinstance(tst, ast.Compare) and isinstance(tst.ops[0], ast.NotEq) and isinstance(tst.left, ast.Name) and tst.left.id == ch and \
                         isinstance(tst.comparators[0], ast.Constant) and tst.comparators[0].value == "]" and adv and \
                         not [g for g in guards_of(fi, d.node) if g[2] in cfg.loops.get(loops[0].id, set())]:
                     acc_ok = True
-    extra_defs = [d for d in tdefs if not ((d.kind == "assign" and isinstance(d.value, ast.Name) and d.value.id == T.peek_var) or d.kind == "aug")]
+    extra_defs = [d for d in tdefs if not ((d.kind == "assign" and isinstance(d.value, ast.Name) and d.value.id == T.peek_var) or d.kind == "aug" or
+                                           (d.ast is not None and isinstance(d.ast, ast.Assign) and aug_like(d.ast)))]
     (obs.append(ob_ok("TOK.T5-descriptor", fi, ap, construct="text = kind char; while ch != ']': text += ch; ch = next(iter)", instance="text",
                       reason="kind and label are collected completely, up to the closing bracket")) if init_ok and acc_ok and not extra_defs else
      obs.append(ob_fail("TOK.T5-descriptor", fi, ap, construct="collection of the descriptor text", instance="text",
@@ -523,7 +535,8 @@ def _descriptor_rules(T, bb, darm, dnode):
         for t, pol, g in gs:
             n = cfg.nodes[g]
             if any(isinstance(x, ast.Name) and x.id == T.PENDING for x in ast.walk(t)):
-                arm_stmts = n.ast.body if pol else n.ast.orelse
+                _t, tarm, farm = if_arms(n.ast)
+                arm_stmts = tarm if pol else farm
         if arm_stmts is not None:
             clears = T.assigns(arm_stmts, T.PENDING, T.is_none)
             strips = [a for a in T.text_appends(arm_stmts) if isinstance(a[1], str) and a[1] == "strip::-1"]
